@@ -155,6 +155,45 @@ SCENARIOS = [
          text="def fn():\n    {X} = 1\n    {Y} = 2\n    {Z} = 3\n    return {X} * 100 + {Y} * 10 + {Z}\n\n\nprint(fn())\n",
          scopes=[("M", "none", "module"), ("F", "M", "function")],
          occ=[("X", "F", "store"), ("Y", "F", "store"), ("Z", "F", "store"), ("X", "F", "load"), ("Y", "F", "load"), ("Z", "F", "load")]),
+    # a comprehension with two for clauses that re-binds the name: only its FIRST iterable is read outside the comprehension
+    dict(name="comp_two_for", distinct=False,
+         text="{X} = [1, 2]\ngrid = [[1], [2, 3]]\nres = [{Y} for {X} in grid for {Y} in {X}]\nprint(res, {X})\n",
+         scopes=[("M", "none", "module"), ("C", "M", "comp")],
+         occ=[("X", "M", "store"), ("Y", "C", "load"), ("X", "C", "store"), ("Y", "C", "store"), ("X", "C", "load"), ("X", "M", "load")]),
+    dict(name="comp_two_for_local", distinct=False,
+         text="def fn(grid):\n    {X} = grid[0]\n    res = [{Y} for {X} in grid for {Y} in {X}]\n    return res, {X}\n\n\nprint(fn([[1], [2, 3]]))\n",
+         scopes=[("M", "none", "module"), ("F", "M", "function"), ("C", "F", "comp")],
+         occ=[("X", "F", "store"), ("Y", "C", "load"), ("X", "C", "store"), ("Y", "C", "store"), ("X", "C", "load"), ("X", "F", "load")]),
+    dict(name="comp_first_iter_outer", distinct=False,
+         text="def fn():\n    {X} = [[1], [2, 3]]\n    res = [{Y} for {X} in {X} for {Y} in {X}]\n    return res, {X}\n\n\nprint(fn())\n",
+         scopes=[("M", "none", "module"), ("F", "M", "function"), ("C", "F", "comp")],
+         occ=[("X", "F", "store"), ("Y", "C", "load"), ("X", "C", "store"), ("X", "F", "load"), ("Y", "C", "store"), ("X", "C", "load"), ("X", "F", "load")]),
+    # * and ** parameters that the body assigns again
+    dict(name="vararg_reassigned", distinct=False,
+         text="def fn(*{X}):\n    {X} = list({X})\n    {Y} = len({X})\n    return {X}, {Y}\n\n\nprint(fn(1, 2))\n",
+         scopes=[("M", "none", "module"), ("F", "M", "function")],
+         occ=[("X", "F", "param"), ("X", "F", "store"), ("X", "F", "load"), ("Y", "F", "store"), ("X", "F", "load"), ("X", "F", "load"), ("Y", "F", "load")]),
+    dict(name="kwarg_reassigned", distinct=False,
+         text="def fn(**{X}):\n    {X} = dict({X}, extra=1)\n    {Y} = sorted({X})\n    return {Y}\n\n\nprint(fn(a=1))\n",
+         scopes=[("M", "none", "module"), ("F", "M", "function")],
+         occ=[("X", "F", "param"), ("X", "F", "store"), ("X", "F", "load"), ("Y", "F", "store"), ("X", "F", "load"), ("Y", "F", "load")]),
+    dict(name="kwonly_reassigned", distinct=False,
+         text="def fn(*, {X}=3):\n    {X} += 1\n    {Y} = {X} * 2\n    return {Y}\n\n\nprint(fn(), fn({X}=5))\n",
+         scopes=[("M", "none", "module"), ("F", "M", "function")],
+         occ=[("X", "F", "param"), ("X", "F", "store"), ("Y", "F", "store"), ("X", "F", "load"), ("Y", "F", "load"), ("X", "F", "kw")]),
+    # two functions with one body (the duplicate-function merge deletes one): the names are used as VALUES, not only called
+    dict(name="dup_functions_as_values", distinct=True,
+         text="def {X}(v):\n    return v * 2\n\n\ndef {Y}(v):\n    return v * 2\n\n\ndef other(v, fn={Y}):\n    return fn(v)\n\n\n"
+              "table = {\"a\": {Y}, \"b\": {X}}\n"
+              "print(list(map({Y}, [1, 2])), sorted([3, 1], key={Y}), table[\"a\"](4), other(5), {X}(6), {Y}(7))\n",
+         scopes=[("M", "none", "module"), ("F", "M", "function"), ("G", "M", "function"), ("H", "M", "function")],
+         occ=[("X", "M", "store"), ("Y", "M", "store"), ("Y", "M", "load"), ("Y", "M", "load"), ("X", "M", "load"), ("Y", "M", "load"), ("Y", "M", "load"),
+              ("X", "M", "load"), ("Y", "M", "load")]),
+    dict(name="dup_functions_decorator", distinct=True,
+         text="def {X}(f):\n    return f\n\n\ndef {Y}(f):\n    return f\n\n\n@{Y}\ndef other(v):\n    return v + 1\n\n\n"
+              "def pick():\n    return {Y}\n\n\nprint(other(1), pick()(2), {X}(3))\n",
+         scopes=[("M", "none", "module"), ("F", "M", "function"), ("G", "M", "function"), ("H", "M", "function"), ("I", "M", "function")],
+         occ=[("X", "M", "store"), ("Y", "M", "store"), ("Y", "M", "load"), ("Y", "I", "load"), ("X", "M", "load")]),
 ]
 BY_NAME = {s["name"]: s for s in SCENARIOS}
 
@@ -409,6 +448,9 @@ def symtable_agrees(text: str, res: Resolver) -> Optional[str]:
             grp = res.resolve(scope, name)
             if tab.get_type() == "module":
                 continue
+            # CPython 3.12 inlines comprehensions into functions (PEP 709): their variables show up in the function's table
+            if any(k.kind == "comp" and name in k.bound for k in scope.children):
+                continue
             if sym.is_global() and grp[0] not in (res.module.id, "builtins"):
                 return f"{name} in {tab.get_name()}: CPython says global, resolver says {grp}"
             if sym.is_local() and not sym.is_global() and grp[0] != scope.id:
@@ -544,6 +586,7 @@ def _format_chunk(items):
     for rec, text in items:
         res = {}
         for label, fn in (("fixes.align_variable_names_with_convention", mods["fixes"].align_variable_names_with_convention),
+                          ("fixes.remove_duplicate_functions", lambda s: mods["fixes"].remove_duplicate_functions(s, preserve=set())),
                           ("format_code", lambda s: mods["main"].format_code(s, safe=True))):
             try:
                 res[label] = fn(text)
